@@ -978,6 +978,34 @@ func c07Bound(p *Prog, r *Report, b *bufInfo, inLoop map[*ssa.BasicBlock]bool) {
 				return true
 			}
 			other := Reach(fn, b.handler, nil, notGiveUp)[relay] && feasiblePathExists(fn, b.handler, relay, notGiveUp)
+			if other && len(predCalls) == 1 {
+				// the decision may be carried in a variable (`retry := ...; if !retry {deliver}`): relational fixpoint —
+				// whenever the expression was evaluated for this attempt (event set at its call, cleared at the
+				// handler call) the delivery is reached only with the value false
+				pc := predCalls[0].(*ssa.Call)
+				pairs, okA := EventValAt(fn, isOnlyInstr(pc), isOnlyInstr(b.handler), relay, pc)
+				if okA && !pairs[bcPair{true, true}] {
+					// and without evaluating it only through the nil / bound edges: delete those, the relay must then
+					// be unreachable from the handler without passing the call
+					onlyGive := func(e Edge) bool {
+						for _, g := range giveUp {
+							if g.B == e.B && g.K == e.K {
+								// keep the false-result edges (they follow the call); drop nil / bound edges
+								for _, t := range BoolTests(fn, func(v ssa.Value) bool { return v == ssa.Value(pc) }) {
+									if t.False.B == g.B && t.False.K == g.K {
+										return true
+									}
+								}
+								return false
+							}
+						}
+						return true
+					}
+					if !ReachableAvoiding(fn, b.handler, relay, isOnlyInstr(pc), onlyGive) {
+						other = false
+					}
+				}
+			}
 			r.Paths++
 			r.Check(!other, "C07.R5", sn+": an attempt is delivered only when the retry expression says so (or none / bound exhausted)", p.InstrPos(relay),
 				"the relay is unreachable from the handler once the edges predicate == nil, counter > K and predicate(...) == false are deleted",
